@@ -156,7 +156,28 @@ def _dyn(base, n=[0]):
     return cls('dyn', n[0])
 
 
+class FinalErr(Exception):
+    """an error class that refuses to be subclassed (a 'final' class)"""
+    def __init_subclass__(cls, **kw):
+        raise TypeError('FinalErr is final')
+
+
+class _NeedsKw(type):
+    def __new__(mcs, name, bases, ns, **kw):
+        if 'registry' not in kw and name != 'MetaKwErr':
+            raise TypeError('class keyword registry= is required')
+        return super().__new__(mcs, name, bases, ns)
+
+    def __init__(cls, name, bases, ns, **kw):
+        super().__init__(name, bases, ns)
+
+
+class MetaKwErr(Exception, metaclass=_NeedsKw):
+    """an error class whose metaclass requires a class keyword of every subclass"""
+
+
 CATALOGUE = [
+    ('FinalErr', lambda: FinalErr('final', 1)), ('MetaKwErr', lambda: MetaKwErr('needs a class keyword')),
     ('ValueError', lambda: ValueError('bad value', 3)), ('KeyError', lambda: KeyError('k')), ('IndexError', lambda: IndexError(5)),
     ('AttributeError', lambda: AttributeError('attr')), ('TypeError', lambda: TypeError('type')),
     ('OSError', lambda: OSError(2, 'x')), ('UnicodeDecodeError', lambda: UnicodeDecodeError('utf-8', b'\xff', 0, 1, 'bad')),
